@@ -129,7 +129,7 @@ def strat_reward(draw, tier):
     case = draw(triple_s(tier, focus=name))
     space = case['space']
     spec = {'name': name}
-    pr = lambda k: spec.__setitem__(k, draw(gen.fin)) if draw(st.integers(0, 3)) else None  # noqa: E731
+    pr = lambda k: spec.__setitem__(k, draw(st.sampled_from([0.0, 0.0, 0]) | gen.fin)) if draw(st.integers(0, 3)) else None  # noqa: E731
     if name == 'living_reward':
         pr('reward')
     elif name == 'overlap':
@@ -166,12 +166,13 @@ OFF = {'overlap': 'reward_off', 'reach_exit': 'reward_off'}
 def oracle_reward(case, ctx):
     s, a, spec = case['s'], case['a'], case['spec']
     n = next_of(case, ctx)
-    f = envs.mk_reward(spec)
+    via = bool(case['seed'] % 2)   # obtained by name through the factory, or bound directly on the registry function
+    f = guarded(ctx, f'reward factory {spec["name"]}', envs.mk_reward, spec, via)
     S, N = objs.build_state(s), objs.build_state(n)
     got = guarded(ctx, f'reward {spec["name"]}', f, S, objs.action(a), N)
     exp = M.reward(spec, s, a, n)
     if not isinstance(got, (int, float)) or isinstance(got, bool) or not close(float(got), exp):
-        ctx.fail(f'reward {spec} on action {a} ({case["mode"]} next state): got {got!r}, documented value {exp!r}; agent {s["agent"]} -> {n["agent"]}',
+        ctx.fail(f'reward {spec}{" (built by factory)" if via else ""} on action {a} ({case["mode"]} next state): got {got!r}, documented value {exp!r}; agent {s["agent"]} -> {n["agent"]}',
                  {'kind': 'reward_value', 'name': spec['name']})
     # deterministic and read-only
     again = f(S, objs.action(a), N)
@@ -179,7 +180,9 @@ def oracle_reward(case, ctx):
         ctx.fail(f'reward {spec["name"]} is not a read-only deterministic function', {'kind': 'reward_pure', 'name': spec['name']})
     off = spec.get(OFF.get(spec['name'], ''), 0.0) if spec['name'] in OFF else 0.0
     fired = exp != off if spec['name'] != 'living_reward' else True
-    ctx.ev.case(case, nt=fired, classes=[f'{spec["name"]}:{"on" if fired else "off"}', 'mode:' + case['mode']], key=[s, a, n, spec])
+    zero = any(v == 0 and not isinstance(v, bool) for k, v in spec.items() if k.startswith('reward'))
+    ctx.ev.case(case, nt=fired, classes=[f'{spec["name"]}:{"on" if fired else "off"}', 'mode:' + case['mode'], 'via_factory' if via else 'direct'] + (['zero_valued_parameter'] if zero else []),
+                key=[s, a, n, spec])
 
 
 @st.composite
@@ -192,7 +195,7 @@ def strat_term(draw, tier):
 def oracle_term(case, ctx):
     s, a, spec = case['s'], case['a'], case['spec']
     n = next_of(case, ctx)
-    f = envs.mk_term(spec)
+    f = envs.mk_term(spec, bool(case['seed'] % 2))
     S, N = objs.build_state(s), objs.build_state(n)
     got = guarded(ctx, f'termination {spec["name"]}', f, S, objs.action(a), N)
     exp = M.terminal(spec, s, a, n)
@@ -218,7 +221,7 @@ def strat_comp(draw, tier):
 
 def oracle_comp(case, ctx):
     s, a = case['s'], case['a']
-    comp = {'chain': case['chain'], 'rewards': case['rewards'], 'term': case['term'], 'obs': 'fully_transparent', 'view': [1, 1]}
+    comp = {'chain': case['chain'], 'rewards': case['rewards'], 'term': case['term'], 'obs': 'fully_transparent', 'view': [1, 1], 'via_factory': bool(case['seed'] % 2)}
     env = envs.mk_env(case['space'], M.shape(s), comp, reset_state=s)
     env.set_seed(case['seed'])
     S = objs.build_state(s)
@@ -315,7 +318,7 @@ def oracle_hist(case, ctx):
 CHECKS = [
     Check('reward_components', oracle_reward, strategy=strat_reward, examples={'quick': 700, 'thorough': 2500}, shards={'quick': 4, 'thorough': 16},
           rule='each built-in reward x generated finite parameters x (state, action, arbitrary or dynamics-produced next state) against the docstring model, exact value',
-          required=[f'{n}:on' for n in REWARDS] + ['mode:arbitrary', 'mode:dynamics']),
+          required=[f'{n}:on' for n in REWARDS] + ['mode:arbitrary', 'mode:dynamics', 'via_factory', 'direct', 'zero_valued_parameter']),
     Check('termination_components', oracle_term, strategy=strat_term, examples={'quick': 500, 'thorough': 1500}, shards={'quick': 2, 'thorough': 16},
           rule='each built-in termination and nested reduce_any/reduce_all against the model',
           required=['reach_exit:on', 'bump_into_wall:on', 'bump_moving_obstacle:on', 'reduce_any:on', 'reduce_all:on', 'reduce_all:off']),
